@@ -70,6 +70,20 @@ PROPS = {
         level_note=('Trusted: refsem/align.rs::legal, written from the property statement as the most permissive reading (pattern ERROR = wildcard kind, childless pattern node constrains only the kind, '
                     'repeated-variable consistency ignored here). It cannot see matches that are legal but undesirable.'),
     ),
+    'C05': dict(
+        engines=[('vmon', 'c05')],
+        technique='runtime monitoring: reference-model oracle (independent recursive evaluator of the rule reference) vs Rule matching on every node, with defect-emulation attribution and rule shrinking',
+        rule=('random rule trees (depth <= 3 quick / 5 thorough) over pattern, kind, regex, range, nthChild (numeric, An+B, reverse, ofRule), all, any, not, inside/has/precedes/follows with '
+              'stopBy neighbor|end|rule and field (neighbor only), matches with 0-2 acyclic utilities; leaves are harvested from the scanned file (kinds that occur, variable-disjoint cut patterns, '
+              'identifier regexes, real and near-miss ranges). Each rule is loaded from its YAML through SerializableRuleCore and evaluated on every node (root included, <= 900 nodes per source) of '
+              'corpus excerpts and error-ridden variants without zero-width nodes; RuleCore::match_node(n).is_some() must equal the reference. evaluations = (rule, node) pairs. '
+              'Non-trivial = distinct (source, rule) pairs where the rule is true on >= 1 node and false on >= 1 node.'),
+        floor={'quick': 500000, 'thorough': 10000000},
+        level_text='Millions of (rule, node) evaluations per run against an independent evaluator over parent()/children(); disagreements are shrunk and attributed; held on the rules and trees executed.',
+        level_note=('Trusted: refsem/rule_bool.rs (written from the rule reference and the schema descriptions), the regex crate, Pattern atoms (judged by C02/C03), tree-sitter child_by_field_name. '
+                    'field only with stopBy neighbor and only when <= 1 child carries the field; a per-rule work limit (400 ms) stops cubic rule/tree combinations (counted, no verdict).'),
+        assumptions=['sources containing MISSING or zero-width nodes are skipped (statement)', 'evaluations with an ambiguous field carry no verdict (statement)'],
+    ),
 }
 
 NOT_APPLICABLE = {}
